@@ -1,6 +1,7 @@
 package harness
 
 import (
+	"context"
 	"fmt"
 	"testing"
 	"time"
@@ -19,6 +20,43 @@ func init() {
 }
 
 func genC04(seed uint64, run int, tier string) *Plan {
+	if newRNG(seed, 0x5a4e).IntN(100) < 8 {
+		return genC04Shared(seed, run)
+	}
+	return genC04Plain(seed, run, tier)
+}
+
+// genC04Shared: several goroutines work inside ONE session transaction (the
+// transaction object is shared state with its own lock): their increments
+// must not overwrite each other either.
+func genC04Shared(seed uint64, run int) *Plan {
+	r := newRNG(seed, 44)
+	p := &Plan{Prop: "C04", Seed: seed, Run: run}
+	p.Cfg = Cfg{Store: "mem", Strategy: pick(r, "random", "random", "pct", "sticky"), PCTDepth: 1 + r.IntN(3), ExpireMs: 60000, Variant: "sharedtxn", SharedSess: true}
+	p.Cfg.Fine = pick(r, 0, 1, 1, 1, 2)
+	keys := 1 + r.IntN(2)
+	for ti, n := 0, 2+r.IntN(2); ti < n; ti++ {
+		tp := TaskPlan{Name: fmt.Sprintf("member%d", ti)}
+		for k := 1 + r.IntN(4); k > 0; k-- {
+			key := bson.D{{Key: "_id", Value: int32(r.IntN(keys))}}
+			inc := bson.D{{Key: "$inc", Value: bson.D{{Key: "n", Value: int32(1)}}}}
+			var sub Op
+			switch r.IntN(5) {
+			case 0, 1:
+				sub = Op{K: "updateOne", DB: "db", C: "k", F: jd(key), U: jd(inc), Upsert: true}
+			case 2, 3:
+				sub = Op{K: "findOneAndUpdate", DB: "db", C: "k", F: jd(key), U: jd(inc), Upsert: true, After: true}
+			default:
+				sub = Op{K: "find", DB: "db", C: "k", F: jd(bson.D{})}
+			}
+			tp.Ops = append(tp.Ops, Op{K: "s.op", Sess: 0, Sub: []Op{sub}})
+		}
+		p.Tasks = append(p.Tasks, tp)
+	}
+	return p
+}
+
+func genC04Plain(seed uint64, run int, tier string) *Plan {
 	r := newRNG(seed, 4)
 	p := &Plan{Prop: "C04", Seed: seed, Run: run}
 	p.Cfg = Cfg{
@@ -27,6 +65,7 @@ func genC04(seed uint64, run int, tier string) *Plan {
 		PCTDepth: 1 + r.IntN(3),
 		ExpireMs: pick(r, int64(200), 1000, 60000),
 	}
+	p.Cfg.Fine = fineKnob(seed, 15, 3)
 	keys := 1 + r.IntN(3)
 	ntasks := 2 + r.IntN(3)
 	tag := 0
@@ -111,7 +150,133 @@ type c04Unit struct {
 	commit int // index into env.commits, -1 if the unit did not commit
 }
 
-func execC04(t *testing.T, plan *Plan) *Outcome { return execConc(t, plan, "C04", nil, nil) }
+func execC04(t *testing.T, plan *Plan) *Outcome {
+	if plan.Cfg.Variant == "sharedtxn" {
+		return execC04Shared(t, plan)
+	}
+	return execConc(t, plan, "C04", nil, nil)
+}
+
+// execC04Shared: the tasks increment counters inside one shared session
+// transaction, then the transaction is committed. Model-free oracle: whatever
+// the order, the k-th successful increment of a key returns k ("after"
+// documents are distinct and within 1..k) and the committed counter equals the
+// number of successful increments.
+func execC04Shared(t *testing.T, plan *Plan) *Outcome {
+	return runPlan(t, plan, func(e *Env) {
+		e.monitors()
+		sim := e.sim
+		var actors []*actor
+		ok := false
+		sim.Go("setup", false, func(*simrt.Task) {
+			if err := e.open(); err != nil {
+				e.out.Harness = "open failed: " + err.Error()
+				return
+			}
+			sess, err := e.client.StartSession()
+			if err == nil {
+				err = sess.StartTransaction()
+			}
+			if err != nil {
+				e.out.Harness = "cannot start the shared transaction: " + err.Error()
+				return
+			}
+			e.sharedSess = append(e.sharedSess, sess)
+			ok = true
+			for i, tp := range plan.Tasks {
+				a := &actor{e: e, idx: i}
+				actors = append(actors, a)
+				ops := tp.Ops
+				a.t = sim.Go(tp.Name, false, func(*simrt.Task) { a.run(ops) })
+			}
+		})
+		sim.Run()
+		if !ok || e.out.Harness != "" {
+			return
+		}
+		e.out.Nontrivial = sim.ChoicePoints() > 0
+		stalled := func(phase string) bool {
+			if sim.PanicVal != nil || sim.Deadlock != "" || sim.TimeOut || sim.StepsOut {
+				e.violate(violation("C16", "deadlock", "stall", fmt.Sprintf("shared transaction run did not finish (%s): panic=%v %s %s", phase, sim.PanicVal, sim.Deadlock, e.stallReport())))
+				return true
+			}
+			return false
+		}
+		if stalled("members") {
+			return
+		}
+		var cerr error
+		sim.Go("committer", false, func(*simrt.Task) { cerr = e.sharedSess[0].CommitTransaction(context.Background()) })
+		sim.Run()
+		if stalled("commit") {
+			return
+		}
+		if cerr != nil {
+			e.violate(violation("C04", "shared-transaction-commit-failed", "", fmt.Sprintf("committing the shared transaction failed: %v", cerr)))
+			return
+		}
+		incs := map[string]int{}
+		afters := map[string]map[int32]bool{}
+		for _, a := range actors {
+			for _, c := range a.calls {
+				if len(c.Op.Sub) == 0 {
+					continue // (emptied by the minimiser)
+				}
+				sub := &c.Op.Sub[0]
+				if sub.K == "find" {
+					continue
+				}
+				key := valStr(model.Get(sub.F.doc(), "_id"))
+				if c.Err != nil {
+					e.violate(violation("C04", "shared-transaction-call-failed", sub.K, fmt.Sprintf("%s inside the shared transaction failed: %v", opStr(sub), c.Err)))
+					return
+				}
+				incs[key]++
+				if sub.K == "updateOne" {
+					if c.Res.Matched+c.Res.Upserted != 1 {
+						e.violate(violation("C04", "lost-update", "shared-transaction-result", fmt.Sprintf("%s inside the shared transaction reports matched=%d upserted=%d", opStr(sub), c.Res.Matched, c.Res.Upserted)))
+						return
+					}
+					continue
+				}
+				n, _ := model.Get(c.Res.Docs[0], "n").(int32)
+				if afters[key] == nil {
+					afters[key] = map[int32]bool{}
+				}
+				if afters[key][n] {
+					e.violate(violation("C04", "lost-update", "shared-transaction", fmt.Sprintf("two increments of %s inside the shared transaction both returned n=%d", key, n)))
+					return
+				}
+				afters[key][n] = true
+			}
+		}
+		e.probe("shared-transaction-checked")
+		final := map[string]int{}
+		if len(e.commits) > 0 {
+			cat := e.commits[len(e.commits)-1].Cat
+			e.out.StateHash = stateFingerprint(cat)
+			if c := cat.Namespaces[[2]string{"db", "k"}]; c != nil {
+				for _, d := range c.Documents.List {
+					dd := toD(d)
+					n, _ := model.Get(dd, "n").(int32)
+					final[valStr(model.Get(dd, "_id"))] = int(n)
+				}
+			}
+		}
+		for key, want := range incs {
+			if final[key] != want {
+				e.violate(violation("C04", "lost-update", "shared-transaction", fmt.Sprintf("%d increments of %s succeeded inside the shared transaction, the committed counter is %d", want, key, final[key])))
+				return
+			}
+			for n := range afters[key] {
+				if n < 1 || int(n) > want {
+					e.violate(violation("C04", "lost-update", "shared-transaction", fmt.Sprintf("an increment of %s returned n=%d although only %d increments were made", key, n, want)))
+					return
+				}
+			}
+		}
+	})
+}
 
 // execConc runs concurrent client scripts and checks the history against the
 // commit-order replay oracle. extraTasks may add tasks (snapshot takers);
